@@ -5,9 +5,11 @@ import (
 	"encoding/hex"
 	"fmt"
 	"os"
+	"runtime"
 	"strconv"
 	"strings"
 	"sync"
+	"sync/atomic"
 )
 
 // coldMain: N goroutines are released together in a process that has not yet made a single library call, and each
@@ -58,6 +60,7 @@ func coldMain(args []string) {
 		return hex.EncodeToString(h.Sum(nil))
 	}
 	digests := make([]string, n)
+	var arrived int32
 	var wg sync.WaitGroup
 	start := make(chan struct{})
 	for t := 0; t < n; t++ {
@@ -65,6 +68,12 @@ func coldMain(args []string) {
 		go func(t int) {
 			defer wg.Done()
 			<-start
+			// spin barrier: nobody makes the first library call before everybody is running (on a loaded machine
+			// the goroutines would otherwise start one after the other and a lazy initialisation would look safe)
+			atomic.AddInt32(&arrived, 1)
+			for atomic.LoadInt32(&arrived) < int32(n) {
+				runtime.Gosched()
+			}
 			digests[t] = run(t)
 		}(t)
 	}
